@@ -923,6 +923,16 @@ def _clone_test_id_callback(test, callback):
     """
     newTest = copy.copy(test)
     newTest.id = callback
+    # TestCase.__init__ replaces an expected-failure test method, on the
+    # instance, by a wrapper around the bound method: the copy needs a wrapper
+    # around its own method or it would run the test it was copied from.
+    name = getattr(newTest, "_testMethodName", None)
+    wrapper = getattr(newTest, "__dict__", {}).get(name)
+    method = getattr(wrapper, "__wrapped__", None)
+    if getattr(method, "__self__", None) is test:
+        setattr(
+            newTest, name, _expectedFailure(types.MethodType(method.__func__, newTest))
+        )
     return newTest
 
 
